@@ -55,6 +55,7 @@ import RotoV.Lemmas.ConcExec
 import RotoV.Model.ConcInstr
 import RotoV.Generated.C12Bounds
 import RotoV.Generated.C12Sharing
+import RotoV.Generated.C12Globals
 
 namespace RotoV.C12
 open RotoV.Conc
@@ -615,6 +616,103 @@ theorem non_owning_closure_dangles :
     ownRun false [0, 1] [.call, .dropOwner 0, .call, .dropOwner 1, .call] = false := by
   decide
 
+/-! ### (d) process-global state (the type registry) -/
+
+/-- the semantic reading of the decision over the generated list of `static`s -/
+def GlobalsSound (f : GlobalFacts) : Prop :=
+  ∀ s ∈ f.statics, s.isMut = false ∧ s.kind ≠ .other
+    ∧ (s.kind.lockKind ≠ .none →
+        s.uses ≠ [] ∧ ∀ u ∈ s.uses, ∃ m, u.mode = some m ∧ modeValid s.kind.lockKind m = true)
+
+/-- **T4 (d).** The decision over the generated facts is exactly: no `static mut`,
+no global with unlocked interior mutability, and every occurrence of a
+lock-shaped global's name is an acquisition valid for its lock — the data inside
+is reachable through a guard only. -/
+theorem globals_sound (f : GlobalFacts) : globalsDisciplined f = true ↔ GlobalsSound f := by
+  unfold globalsDisciplined GlobalsSound
+  simp only [List.all_eq_true]
+  constructor
+  · intro h s hs
+    have := h s hs
+    unfold StaticFact.disciplined at this
+    simp only [Bool.and_eq_true, Bool.not_eq_eq_eq_not, Bool.not_true] at this
+    obtain ⟨hm, hk⟩ := this
+    refine ⟨hm, ?_, ?_⟩
+    · intro hc; rw [hc] at hk; cases hk
+    · intro hl
+      cases hkind : s.kind with
+      | atomic => rw [hkind] at hl; exact absurd rfl hl
+      | immutable => rw [hkind] at hl; exact absurd rfl hl
+      | other => rw [hkind] at hk; cases hk
+      | mutex =>
+        rw [hkind] at hk
+        simp only [Bool.and_eq_true, List.all_eq_true, Bool.not_eq_eq_eq_not, Bool.not_true,
+          List.isEmpty_eq_false_iff] at hk
+        refine ⟨hk.1, fun u hu => ?_⟩
+        have := hk.2 u hu
+        cases hmode : u.mode with
+        | none => rw [hmode] at this; cases this
+        | some m => rw [hmode] at this; exact ⟨m, rfl, this⟩
+      | rwlock =>
+        rw [hkind] at hk
+        simp only [Bool.and_eq_true, List.all_eq_true, Bool.not_eq_eq_eq_not, Bool.not_true,
+          List.isEmpty_eq_false_iff] at hk
+        refine ⟨hk.1, fun u hu => ?_⟩
+        have := hk.2 u hu
+        cases hmode : u.mode with
+        | none => rw [hmode] at this; cases this
+        | some m => rw [hmode] at this; exact ⟨m, rfl, this⟩
+  · intro h s hs
+    obtain ⟨hm, hk, hl⟩ := h s hs
+    unfold StaticFact.disciplined
+    simp only [hm, Bool.not_false, Bool.true_and]
+    cases hkind : s.kind with
+    | atomic => rfl
+    | immutable => rfl
+    | other => exact absurd hkind hk
+    | mutex =>
+      have := hl (by rw [hkind]; decide)
+      simp only [Bool.and_eq_true, List.all_eq_true, Bool.not_eq_eq_eq_not, Bool.not_true,
+        List.isEmpty_eq_false_iff]
+      refine ⟨this.1, fun u hu => ?_⟩
+      obtain ⟨m, hmode, hv⟩ := this.2 u hu
+      rw [hmode]; rw [hkind] at hv; exact hv
+    | rwlock =>
+      have := hl (by rw [hkind]; decide)
+      simp only [Bool.and_eq_true, List.all_eq_true, Bool.not_eq_eq_eq_not, Bool.not_true,
+        List.isEmpty_eq_false_iff]
+      refine ⟨this.1, fun u hu => ?_⟩
+      obtain ⟨m, hmode, hv⟩ := this.2 u hu
+      rw [hmode]; rw [hkind] at hv; exact hv
+
+/-- **(d), on the lock machine.** Any number of instances use a `Mutex`-shaped
+global, each through one of the generated occurrences of its name. If the
+discipline holds, then in every trace the lock admits an instance that accesses
+the data is the only holder (the registry is never read while another thread
+inserts into it). -/
+theorem global_mutex_access_exclusive (f : GlobalFacts) (hd : globalsDisciplined f = true)
+    (s : StaticFact) (hs : s ∈ f.statics) (hk : s.kind = .mutex)
+    (use : ι → GlobalUse) (huse : ∀ i, use i ∈ s.uses)
+    (pre post : List (Ev ι)) (i : ι) (w : Bool) (Hf : List ι)
+    (hrun : runLock .mutex (fun j => ((use j).mode).getD .mutexLock) [] (pre ++ .acc i w :: post) = some Hf) :
+    runLock .mutex (fun j => ((use j).mode).getD .mutexLock) [] pre = some [i] := by
+  obtain ⟨_, _, hl⟩ := (globals_sound f).mp hd s hs
+  have hl := (hl (by rw [hk]; decide)).2 (use i) (huse i)
+  obtain ⟨m, hmode, hv⟩ := hl
+  rw [hk] at hv
+  have hg : grantsExcl .mutex (((use i).mode).getD .mutexLock) = true := by
+    rw [hmode]
+    cases m <;> simp_all [modeValid, GlobalKind.lockKind, grantsExcl]
+  obtain ⟨H, hpre, hw, _⟩ := exclusive_writes .mutex _ pre post (.acc i w) Hf hrun
+  rw [hpre, hw i w rfl hg]
+
+/-- no `static mut`, no unlocked interior mutability in a global, every use of
+the type registry is `lock()` — on the current tree -/
+theorem globals_disciplined_on_tree : globalsDisciplined Gen.C12Globals.facts = true := by decide
+
+theorem globals_sound_on_tree : GlobalsSound Gen.C12Globals.facts :=
+  (globals_sound _).mp globals_disciplined_on_tree
+
 /-! ### the generated obligations -/
 
 /-- every mutation of the shared list on the current tree happens under an
@@ -719,6 +817,27 @@ example :
       have e0 : ¬ (0 : Nat) = i := fun e => h0 e.symm
       have e1 : ¬ (1 : Nat) = i := fun e => h1 e.symm
       simp [projMicro, swapProg, Micro.toEv, Ev.inst, e0, e1]
+
+/-- non-vacuity of (d): the decision accepts a registry behind `LazyLock<Mutex<…>>`
+used through `lock()` only, and rejects a use that bypasses the lock, a
+`static mut`, a `RefCell` global and a lock-shaped global nobody locks -/
+example :
+    globalsDisciplined { threadLocals := 0, statics := [{ kind := .mutex, isMut := false, uses := [.lock, .lock] },
+                                                        { kind := .atomic, isMut := false, uses := [] }] } = true
+    ∧ globalsDisciplined { threadLocals := 0, statics := [{ kind := .mutex, isMut := false, uses := [.lock, .other] }] } = false
+    ∧ globalsDisciplined { threadLocals := 0, statics := [{ kind := .immutable, isMut := true, uses := [] }] } = false
+    ∧ globalsDisciplined { threadLocals := 0, statics := [{ kind := .other, isMut := false, uses := [] }] } = false
+    ∧ globalsDisciplined { threadLocals := 0, statics := [{ kind := .mutex, isMut := false, uses := [] }] } = false
+    ∧ globalsDisciplined { threadLocals := 0, statics := [{ kind := .mutex, isMut := false, uses := [.read] }] } = false := by
+  decide
+
+/-- the hypotheses of `global_mutex_access_exclusive` are satisfiable on the
+generated facts: two instances, `store` then `get` -/
+example :
+    ∃ s ∈ Gen.C12Globals.facts.statics, s.kind = .mutex ∧ GlobalUse.lock ∈ s.uses
+      ∧ runLock .mutex (fun (_ : Nat) => LockMode.mutexLock) []
+          ([.acq 0, .acc 0 true, .rel 0, .acq 1] ++ .acc 1 false :: [.rel 1]) = some [] := by
+  decide
 
 example : countRun (1, 0) [.clone, .clone, .drop, .drop, .drop] = some (0, 1) := by decide
 
@@ -911,6 +1030,7 @@ facts, run by the driver on real compiler output, or named as trusted:
             the real LIR dump of every generated script);
 * `hbounds` T3's decision over the bound lists generated from the sources;
 * `hshare`  T4's decision over the sharing facts generated from the sources;
+* `hglobals` T4 (d): the decision over the generated list of `static`s;
 * `hadm`, `hsync`  TRUSTED: every Rust object generated code reaches was
             admitted through one of those bound lists, and `Send + Sync` Rust
             code stays within the pointers it is handed;
@@ -924,11 +1044,12 @@ exclusive, so concurrent swaps serialise in lock order and leave a permutation;
 no `Rc` and no unlocked cell is reachable from an `unsafe impl Send/Sync` type
 (so every shared count is the exact, free-once machine of
 `arc_frees_exactly_once`); every closure derived from a handle owns the module
-(`owning_closure_never_dangles`). -/
+(`owning_closure_never_dangles`); (3) the only process-global mutable state of
+the crate is behind a `Mutex` that every use locks (`global_mutex_access_exclusive`). -/
 theorem c12_concurrent_use
-    (fB : Bounds.Facts) (fS : Share.Facts)
+    (fB : Bounds.Facts) (fS : Share.Facts) (fG : Share.GlobalFacts)
     (hclaim : Bounds.claimed fB = true) (hbounds : Bounds.syncJustified fB = true)
-    (hshare : Share.shareJustified fS = true)
+    (hshare : Share.shareJustified fS = true) (hglobals : Share.globalsDisciplined fG = true)
     (prog : List Item) (hacc : acceptProg prog = true)
     (sem : Sem) (site : Nat → Nat → RtSite) (hadm : SitesAdmitted fB site) (hsync : SyncConfines sem site)
     (calls : ι → Nat × (Var → Int)) (m0 : Store ι)
@@ -942,7 +1063,8 @@ theorem c12_concurrent_use
       ∧ (∀ r off, r.isLocal = true → conc (.loc i r off) = solo (.loc i r off))
       ∧ (∀ r off, conc (.shared r off) = m0 (.shared r off)))
     ∧ ShareSound fS ∧ SwapsSerialise fS
-    ∧ (∀ tr owners, Share.ownRun true owners tr = true) := by
+    ∧ (∀ tr owners, Share.ownRun true owners tr = true)
+    ∧ GlobalsSound fG := by
   have hrt : RtConfined sem :=
     rtConfined_of_sync fB ((sync_sound fB).mp hbounds hclaim) sem site hadm hsync
   have hss := (share_sound fS).mp hshare
@@ -951,13 +1073,13 @@ theorem c12_concurrent_use
     simp only [Bool.and_eq_true] at hshare
     exact hshare.1.1
   refine ⟨fun i => accepted_calls_noninterfere prog hacc sem hrt calls m0 hinit sched i, hss, ?_,
-    fun tr owners => owning_closure_never_dangles tr owners⟩
+    fun tr owners => owning_closure_never_dangles tr owners, (globals_sound fG).mp hglobals⟩
   intro site' hsite hmut a b tr arr hrun hprog hb
   exact exclusive_swaps_permute fS hd site' hsite hmut a b tr arr hrun hprog hb
 
 /-- **C12 on the current tree**: the generated obligations discharged
 (`sync_holds_on_tree`, `lock_discipline_on_tree`, `counts_atomic_on_tree`,
-`closures_own_on_tree`). What remains are the checker's verdict on the program
+`closures_own_on_tree`, `globals_disciplined_on_tree`). What remains are the checker's verdict on the program
 at hand (decided by the driver for every generated script) and the trusted
 hypotheses. -/
 theorem c12_on_tree
@@ -975,10 +1097,13 @@ theorem c12_on_tree
       ∧ (∀ r off, r.isLocal = true → conc (.loc i r off) = solo (.loc i r off))
       ∧ (∀ r off, conc (.shared r off) = m0 (.shared r off)))
     ∧ ShareSound Gen.C12Sharing.facts ∧ SwapsSerialise Gen.C12Sharing.facts
-    ∧ (∀ tr owners, Share.ownRun true owners tr = true) :=
-  c12_concurrent_use Gen.C12Bounds.facts Gen.C12Sharing.facts sync_holds_on_tree.1 sync_holds_on_tree.2
+    ∧ (∀ tr owners, Share.ownRun true owners tr = true)
+    ∧ GlobalsSound Gen.C12Globals.facts :=
+  c12_concurrent_use Gen.C12Bounds.facts Gen.C12Sharing.facts Gen.C12Globals.facts
+    sync_holds_on_tree.1 sync_holds_on_tree.2
     (by unfold Share.shareJustified
         rw [lock_discipline_on_tree, counts_atomic_on_tree, closures_own_on_tree]; rfl)
+    globals_disciplined_on_tree
     prog hacc sem site hadm hsync calls m0 hinit sched
 
 end T5
